@@ -520,6 +520,56 @@ def gen_sibling_check(rng, idx, g: "Grammar", shape=None, form=None, violable_at
 
 
 @dataclass
+class SubstCheck(Check):
+    """one sibling path learns `x == c1` (taken side of an inner `if (x == c1)`), the other sibling re-reads x from calldata and
+    fails for x == c2 ≠ c1: whatever the first-explored sibling learnt about x must not be used on the other one.
+    `learn_on`: which side of the outer `if (y …)` holds the learning branch (`fall` = fall-through, explored first by the DFS;
+    `taken` = explored last); `deep`: the learning branch sits under one more symbolic branch; `use`: how x is used on the
+    asserting side: `eq` (x == c2), `add` ((x + 1) == c2 + 1), `mem` (mstore(0x40, x); mload(0x40) == c2)."""
+    learn_on: str = "fall"
+    deep: bool = False
+    use: str = "eq"
+    c1: int = 5
+    c2: int = 7
+
+    def body(self) -> list:
+        x, y = asm.calldata_arg(0), asm.calldata_arg(1)
+        def mk_learn():
+            return asm.if_then(asm.eq_const(x, self.c1), [("push", 1), ("push", 0x60), "MSTORE"])
+
+        learn = mk_learn()
+        if self.deep:
+            learn = asm.if_then(asm.calldata_arg(1) + [("push", 3), "GT"], mk_learn(), mk_learn())
+        if self.use == "add":
+            g = asm.eq_const(x + [("push", 1), "ADD"], (self.c2 + 1) % W)
+        elif self.use == "mem":
+            g = asm.eq_const(x + [("push", 0x40), "MSTORE", ("push", 0x40), "MLOAD"], self.c2)
+        else:
+            g = asm.eq_const(x, self.c2)
+        if self.kind == "assertTrue":
+            fail = vm_call("assertTrue", [g + ["ISZERO"]]) + ["STOP"]
+        else:
+            fail = asm.if_then(g, asm.panic(1) if self.kind == "panic" else asm.set_fail_flag() + ["STOP"])
+        outer = y + [("push", 100), "LT"]            # 100 < y
+        if self.learn_on == "fall":
+            return list(self.prologue) + asm.if_then(outer, fail + ["STOP"], learn + ["STOP"]) + ["STOP"]
+        return list(self.prologue) + asm.if_then(outer, learn + ["STOP"], fail + ["STOP"]) + ["STOP"]
+
+
+def gen_subst_check(rng, idx, g: "Grammar", learn_on=None, deep=None, use=None, kind=None) -> SubstCheck:
+    learn_on = learn_on or rng.choice(["fall", "fall", "taken"])
+    deep = rng.random() < 0.4 if deep is None else deep
+    use = use or rng.choice(["eq", "add", "mem"])
+    c1, c2 = rng.sample([5, 7, 0, 1, 1 << 255, W - 1, 42], 2)
+    wy = 1000 if learn_on == "fall" else 3
+    params = [Param("uint256", "x"), Param("uint256", "y")]
+    side = Bin("GT", Arg(1), Const(100)) if learn_on == "fall" else Not(Bin("GT", Arg(1), Const(100)))
+    return SubstCheck(f"check_{idx}_subst{g.n}", params, [side, Bin("EQ", Arg(0), Const(c2))], kind or rng.choice(["panic", "flag", "assertTrue"]),
+                      1, True, [c2, wy], None, "and", f"sibling-learns-eq:{learn_on}:{'deep' if deep else 'flat'}:{use}", True, [], None,
+                      learn_on, deep, use, c1, c2)
+
+
+@dataclass
 class Generated:
     desc: TestContract
     checks: list           # [Check]
@@ -786,7 +836,7 @@ class Grammar:
 
 
 def gen_contract(rng, name="T", ntests=3, pool=(), with_helper=None, bytes_sizes=None, array_sizes=None,
-                 panic_codes=(1,), refine=True, touch=False, loops=False, siblings=None) -> Generated:
+                 panic_codes=(1,), refine=True, touch=False, loops=False, siblings=None, subst=None) -> Generated:
     """setUp() storing constants (optionally deploying a helper whose address is kept in a slot) + `ntests` check functions,
     alternately reachable / unreachable, at least one with a dynamic parameter and one needing refinement per few contracts."""
     g = Grammar(rng, pool, bytes_sizes, array_sizes, panic_codes, refine)
@@ -822,6 +872,9 @@ def gen_contract(rng, name="T", ntests=3, pool=(), with_helper=None, bytes_sizes
     if loops:
         g.n += 1
         checks.append(gen_loop_check(rng, ntests, g))
+    if subst:
+        g.n += 1
+        checks.append(gen_subst_check(rng, ntests + 2, g, **(subst if isinstance(subst, dict) else {})))
     if siblings:
         g.n += 1
         sk = siblings if isinstance(siblings, dict) else {}
@@ -1142,6 +1195,9 @@ class Scenario:
     setup_extra: list = field(default_factory=list)   # asm appended to setUp after the targets are deployed
     # arbitrary initial storage (svm.enableSymbolicStorage): the brute force runs once per variant, a variant = [(addr, slot, value)]
     init_variants: list = field(default_factory=lambda: [[]])
+    # further admissible initial storages to try when replaying a printed counterexample: f(calls, model) -> [variant]
+    # (the model does not name the arbitrary initial storage; e.g. the entry m[k] for the k the counterexample chose)
+    replay_inits: object = None
 
     def build(self) -> tuple:
         """-> (TestContract of the invariant test, [TestContract of targets])"""
